@@ -164,7 +164,9 @@ def build(rec, seed=0, kwonly=True, posonly=False, carriers=True, methods=None):
     for m in range(1, n + 1):
         attrs = {}
         for ph in (1, 2, 3):
-            attrs[prov_attr[ph]] = tuple(sorted(provs.get((m, ph), [])))
+            declared = sorted(provs.get((m, ph), []))
+            rng.shuffle(declared)            # the declared order of a provides tuple is arbitrary ...
+            attrs[prov_attr[ph]] = tuple(declared)
             f = fid(m, ph)
             exists = bool(params.get(f)) or (m, ph) in bare
             if not exists:
@@ -180,11 +182,14 @@ def build(rec, seed=0, kwonly=True, posonly=False, carriers=True, methods=None):
             has_next = bad_next is None or bad_next == 'second'
             recname = '_rec_%d_%d' % (m, ph)
 
-            def recorder(kw, m=m, ph=ph, pnames=tuple(sorted(provs.get((m, ph), [])))):
+            def recorder(kw, m=m, ph=ph, pnames=attrs[prov_attr[ph]], positional=(rng.random() < 0.5)):
                 nxt = kw.pop('next', None)
                 W.calls.append((m, ph, dict(kw)))
                 if nxt is None:
                     return Response('no next')
+                if positional:
+                    # ... and next() may be called positionally in exactly that declared order
+                    return nxt(*[Provided(m, ph, pn, W.reqno) for pn in pnames])
                 return nxt(**dict((pn, Provided(m, ph, pn, W.reqno)) for pn in pnames))
             env[recname] = recorder
             allnames = names + (['next'] if has_next else [])
